@@ -3,8 +3,10 @@ package pass1
 import (
 	"fmt"
 	"log"
+	"strconv"
 
 	"github.com/HobbyOSs/gosk/internal/ast"
+	"github.com/HobbyOSs/gosk/pkg/cpu"
 	"github.com/HobbyOSs/gosk/pkg/ng_operand"
 )
 
@@ -48,6 +50,20 @@ func processPushPopCommon(env *Pass1, operands []ast.Exp, instName string) {
 	// PUSH/POP FS, GS は 2 バイトのオペコード (0F A0 / 0F A1 / 0F A8 / 0F A9)
 	if operandString == "FS" || operandString == "GS" {
 		size = 2
+	}
+	// PUSH imm: codegen (handlePUSH) は符号付き 8 ビットに収まれば 6A ib、
+	// それ以外はビットモードに応じて 68 iw / 68 id を出力するので、同じ規則でサイズを決める
+	if instName == "PUSH" {
+		if immVal, perr := strconv.ParseInt(operandString, 0, 64); perr == nil {
+			switch {
+			case immVal >= -128 && immVal <= 127:
+				size = 2
+			case env.BitMode == cpu.MODE_16BIT:
+				size = 3
+			default:
+				size = 5
+			}
+		}
 	}
 	env.LOC += int32(size)
 
